@@ -16,6 +16,8 @@ from shapely.geometry import Polygon
 from ..model.ugrid import Mesh
 from ..rng import chance, pick
 
+TILE = 64
+
 SHAPE_CLASSES = ['convex', 'convex', 'convex-collinear', 'rectilinear', 'rectilinear', 'rectilinear-collinear',
                  'star', 'arrow', 'star-shaped', 'random-simple', 'random-simple']
 
@@ -330,17 +332,29 @@ LINEAR_MAPS = [((1, 0), (0, 1)), ((1, 0), (0, 1)), ((0, -1), (1, 0)), ((-1, 0), 
                ((1, -1), (1, 1)), ((1, 2), (-1, 1)), ((3, 1), (1, 2))]
 
 
-def free_face_mesh(rng, nfaces, *, winding=None, shape_class=None):
-    """-> (Mesh, winding, info) ; info[f] = dict(label, ring (ints, as stored, open), concave, collinear, triple, cw, sides).
+def free_face_mesh(rng, nfaces, *, winding=None, shape_class=None, rotate=False):
+    """-> (Mesh, winding, info) ; info[f] = dict(label, ring (floats as stored, open), concave, collinear, triple, cw,
+    sides, lattice_collinear).
 
-    winding: 'ccw' | 'cw' | 'mixed' (per face).  Every face is checked with shapely (is_valid, simple ring,
-    positive area) and with the exact integer test; anything else is discarded and redrawn.
+    winding: 'ccw' | 'cw' | 'mixed' (per face).  rotate=True applies one rigid float rotation to the whole mesh
+    (collinear lattice vertices become *nearly* collinear float vertices; nothing is exact any more).
+    Every face is checked with shapely (is_valid, simple ring, positive area) and with the exact rational test on the
+    coordinates actually stored; anything else is discarded and redrawn.
     """
     winding = winding or pick(rng, ['ccw', 'cw', 'mixed'])
     scale_pow = int(pick(rng, [0, 0, -1, -2, 1]))       # coordinates are multiples of 2**scale_pow: exact in float64
     scale = 2.0 ** scale_pow
     x0 = int(rng.integers(-40, 160))
     y0 = int(rng.integers(-60, 40))
+    theta = float(rng.uniform(0.0, 2 * math.pi)) if rotate else 0.0
+    ct, st = math.cos(theta), math.sin(theta)
+
+    def to_float(ix, iy):
+        fx, fy = (x0 + ix) * scale, (y0 + iy) * scale
+        if rotate:
+            return (ct * fx - st * fy, st * fx + ct * fy)
+        return (fx, fy)
+
     cols = max(1, int(math.ceil(math.sqrt(nfaces))))
     rings, info = [], []
     discarded = 0
@@ -357,26 +371,32 @@ def free_face_mesh(rng, nfaces, *, winding=None, shape_class=None):
         if not (3 <= len(ring) <= 8) or not is_simple_exact(ring):
             discarded += 1
             continue
-        poly = Polygon(ring)
-        if not (poly.is_valid and poly.exterior.is_simple and poly.area > 0):
-            discarded += 1
-            continue
         # own tile: translate so that the bounding box starts at the tile origin
         minx = min(p[0] for p in ring)
         miny = min(p[1] for p in ring)
+        if max(p[0] for p in ring) - minx >= TILE or max(p[1] for p in ring) - miny >= TILE:
+            discarded += 1
+            continue
         t = len(rings)
-        ox, oy = (t % cols) * 64, (t // cols) * 64
+        ox, oy = (t % cols) * TILE, (t // cols) * TILE
         ring = [(p[0] - minx + ox, p[1] - miny + oy) for p in ring]
         want_cw = winding == 'cw' or (winding == 'mixed' and chance(rng, 0.5))
-        is_cw = area2(ring) < 0
-        if is_cw != want_cw:
+        if (area2(ring) < 0) != want_cw:
             ring = ring[::-1]
         r = int(rng.integers(len(ring)))
         ring = ring[r:] + ring[:r]
-        concave, flat, triple = classify(ring)
-        rings.append(ring)
-        info.append({'label': label, 'ring': ring, 'concave': concave, 'collinear': flat, 'triple': triple,
-                     'cw': want_cw, 'sides': len(ring), 'start': r})
+        fring = [to_float(ix, iy) for ix, iy in ring]
+        poly = Polygon(fring)
+        ering = exact_ring(fring)
+        if not (poly.is_valid and poly.exterior.is_simple and poly.area > 0 and is_simple_exact(ering)
+                and (area2(ering) < 0) == want_cw):
+            discarded += 1
+            continue
+        concave, flat, triple = classify(ering)
+        rings.append(fring)
+        info.append({'label': label, 'ring': fring, 'concave': concave, 'collinear': flat, 'triple': triple,
+                     'cw': want_cw, 'sides': len(ring), 'start': r, 'lattice_collinear': classify(ring)[2],
+                     'local': [(p[0] - ox, p[1] - oy) for p in ring]})
     if not rings:
         raise RuntimeError('no usable face drawn')
     # each face owns its nodes; node numbers are shuffled over the whole mesh
@@ -388,18 +408,15 @@ def free_face_mesh(rng, nfaces, *, winding=None, shape_class=None):
     k = 0
     for ring in rings:
         face = []
-        for (ix, iy) in ring:
+        for (fx, fy) in ring:
             node = perm[k]
             k += 1
-            x[node] = (x0 + ix) * scale
-            y[node] = (y0 + iy) * scale
+            x[node], y[node] = fx, fy
             face.append(node)
         faces.append(face)
     order = [int(i) for i in rng.permutation(len(faces))]
     faces = [faces[i] for i in order]
     info = [info[i] for i in order]
-    for inf in info:
-        inf['ring'] = [((x0 + ix) * scale, (y0 + iy) * scale) for ix, iy in inf['ring']]
     mesh = Mesh(faces, x, y)
     mesh.discarded = discarded
     return mesh, winding, info
